@@ -200,8 +200,40 @@ def clause_marker_last(prog, rep):
             if not g or g.crate != "mdk_core" or g.is_test_like():
                 continue
             for x in g.live_calls():
-                if pred(x) and "to" in x.t and A.ok_return_reachable(g, x.t["to"], frozenset()):
+                if pred(x) and "to" in x.t and then_ok(g, x.t["to"]):
                     return True
+        return False
+
+    def then_ok(g, start, depth=0):
+        """can the function the code at `start` belongs to still end well?  A closure that builds the error of `map_err` / `ok_or_else`
+        runs on the failing side only: what counts is whether its host can still return Ok once that adaptor has produced Err; a function
+        whose result *is* an error value (`fn reject(..) -> Error`) never ends well"""
+        if not g.is_closure():
+            if "Error" in (g.ret or "") and not (g.ret or "").startswith(("core::result::Result", "core::option::Option")):
+                return False
+            return A.ok_return_reachable(g, start, frozenset())
+        if not any(g.term(b)["k"] == "return" for b in g.reachable_from(start)):
+            return False
+        h = prog.fns.get(g.parent) if getattr(g, "parent", None) else None
+        if h is None or depth > 3:
+            return True
+        hosts = [c for c in h.live_calls() if any(q is g for q in A.closure_args(prog, c))]
+        if not hosts:
+            return True
+        for c in hosts:
+            if c.name not in ("map_err", "ok_or_else") or "to" not in c.t:
+                return True
+            # the adaptor's result is Err(..): continue in the host on the failing side of its test
+            cut = A.success_edges(h, [c])
+            if not cut:
+                return True
+            if h.is_closure():
+                if then_ok(h, c.t["to"], depth + 1):
+                    return True
+                continue
+            r = A.reach_without_edges(h, c.t["to"], cut, A.err_exit_blocks(h))
+            if any(h.term(b)["k"] == "return" for b in r):
+                return True
         return False
 
     n = 0
